@@ -49,6 +49,7 @@ class Ctx:
         self.log = os.path.join(wdir, "log").encode()
         self.tpl = os.path.join(wdir, "t-%{snoopy_literal:x}.log").encode()
         self.tpl_real = os.path.join(wdir, "t-x.log").encode()
+        self.fifo = os.path.join(wdir, "log.fifo").encode()
         self.sock = os.path.join(wdir, "s.sock").encode()
         real = os.path.realpath(wdir)
         pad = 107 - len(real) - 1
@@ -85,7 +86,7 @@ def ini_for(f, ctx):
     sockp = {"ok": ctx.sock, "absent": ctx.nosock, "full": ctx.full}[st]
     filep = ctx.log if st == "ok" else os.path.join(ctx.w, "nodir", "log").encode()
     out = {"file": b"file:" + filep, "socket": b"socket:" + sockp, "socket107": b"socket:" + (ctx.sock107 or ctx.sock),
-           "filebad": b"file:/proc/nonexistent-dir/snoopy.log", "filetpl": b"file:" + ctx.tpl, "devlog": b"devlog",
+           "filebad": b"file:/proc/nonexistent-dir/snoopy.log", "filetpl": b"file:" + ctx.tpl, "filefifo": b"file:" + ctx.fifo, "devlog": b"devlog",
            "stdout": b"stdout", "stderr": b"stderr", "devtty": b"devtty", "devnull": b"devnull", "noop": b"noop",
            "filenoarg": b"file", "unknown": b"bogusoutput:arg"}.get(f["out"])
     if out is not None:
@@ -137,6 +138,16 @@ def call_for(call, ctx, real):
     envp = {"e_null": None, "e_empty": [], "e_one": [b"A=1"], "e_many": _EMANY,
             "e_none": None}[call["envp"]]
     return call["kind"], p, argv, envp
+
+
+def set_argv(s, call, argv):
+    """argument vector of the next call; the big shapes are generated inside the driver ("prog" + k pointers to one patterned string) instead of
+    travelling through the script as megabytes of hex"""
+    shape = call["argv"]
+    if shape in ("a_huge", "a_100k", "a_2g") and argv is not None and len(argv) >= 2 and argv[0] == b"prog":
+        s.add("sharedargv", 2200 if shape == "a_2g" else 1, len(argv[1]))
+    else:
+        s.argv(argv)
 
 
 def piece_bytes(piece, path, argv, dsmax):
@@ -294,7 +305,7 @@ SNAPKEYS = ("fds", "heap", "envp", "envsum", "cwd", "umask", "sigmask", "sigacts
 def build_script(ctx, items, warm=True, snap=True):
     """items: list of (label, file_rec, call_rec, result). One forked child per item."""
     s = drv.Script()
-    s.add("sinkfile", "file", drv.hx(ctx.log)).add("sinkfile", "filetpl", drv.hx(ctx.tpl_real)).add("sinkstd")
+    s.add("sinkfile", "file", drv.hx(ctx.log)).add("sinkfile", "filetpl", drv.hx(ctx.tpl_real)).add("sinkfifo", "filefifo", drv.hx(ctx.fifo)).add("sinkstd")
     s.add("sinksock", "sock", drv.hx(ctx.sock)).add("sinkdevlog", "devlog", drv.hx(ctx.devlog))
     if ctx.sock107:
         s.add("sinksock", "sock107", drv.hx(ctx.sock107))
@@ -322,13 +333,20 @@ def build_script(ctx, items, warm=True, snap=True):
         else:
             s.add("inirmdir").add("ini", drv.hx(ini) if ini is not None else "-")
         s.add("dumpenv")
-        s.path(p).argv(argv)
-        if call["argv"] == "a_2g":
-            s.add("sharedargv", 2200, 1 << 20)
+        s.path(p)
+        set_argv(s, call, argv)
         if kind == "execve":
             s.envp(envp)
+        jam = f.get("out") == "filefifo" and f.get("state") == "ok"
         if warm:
-            s.add("ret", -1, 2).add("quiet", 1).call(kind, "warm").add("quiet", 0).add("drain", "warm:" + label)
+            if jam:
+                s.add("fifojam", "filefifo", 60)
+            s.add("ret", -1, 2).add("quiet", 1).call(kind, "warm").add("quiet", 0)
+            if jam:
+                s.add("fifowait")
+            s.add("drain", "warm:" + label)
+        if jam:
+            s.add("fifojam", "filefifo", 60)      # the pipe is full when the record arrives; the reader makes room 60 ms later
         s.add("snap", 1 if snap else 0)
         if real:
             s.add("real")
@@ -501,7 +519,7 @@ def evaluate(label, f, call, result, o):
 def build_script_hist(ctx, items, snap=True):
     """items: list of (label, [ (file_rec, call_rec, result) ... ]). All steps of an item run in one forked child."""
     s = drv.Script()
-    s.add("sinkfile", "file", drv.hx(ctx.log)).add("sinkfile", "filetpl", drv.hx(ctx.tpl_real)).add("sinkstd")
+    s.add("sinkfile", "file", drv.hx(ctx.log)).add("sinkfile", "filetpl", drv.hx(ctx.tpl_real)).add("sinkfifo", "filefifo", drv.hx(ctx.fifo)).add("sinkstd")
     s.add("sinksock", "sock", drv.hx(ctx.sock)).add("sinkdevlog", "devlog", drv.hx(ctx.devlog))
     s.add("helperout", drv.hx(ctx.helper_out.encode()))
     for label, steps in items:
@@ -514,9 +532,8 @@ def build_script_hist(ctx, items, snap=True):
                 s.add("ini", "-").add("inidir")
             else:
                 s.add("inirmdir").add("ini", drv.hx(ini) if ini is not None else "-")
-            s.path(p).argv(argv)
-            if call["argv"] == "a_2g":
-                s.add("sharedargv", 2200, 1 << 20)
+            s.path(p)
+            set_argv(s, call, argv)
             if kind == "execve":
                 s.envp(envp)
             if real:
